@@ -1,5 +1,5 @@
 """C17 — depth conversion is monotone, keeps endpoints, lossless when widening (clauses)."""
-from ..engines import mono, witness
+from ..engines import mono, witness, type_tables
 from ..engines.mono import INF
 from ..facts import CheckError
 from ..progs import programs
@@ -79,6 +79,7 @@ def run(rep, tier):
         rep.set_cfg(cfg)
         mono_rule(rep, prog, "C17.mono")
         reject_rule(rep, prog, "C17.reject")
+        type_tables.t_types(rep, prog, "C17.table")
     if tier == "thorough":
         rep.set_cfg("witness")
         witness.report(rep, "C17.types", ["W4"])
